@@ -222,6 +222,20 @@ func checkMain(args []string) int {
 	for _, gn := range order {
 		g := groups[gn]
 		if g.Kind == "cover" {
+			if g.Obs[0].Label == "exit" {
+				// infeasible individual paths are normal; a function none of whose sampled return paths is satisfiable is vacuous
+				all := true
+				for _, ob := range g.Obs {
+					if ob.Status != "vacuous" {
+						all = false
+					}
+				}
+				if all {
+					vacuous++
+					fmt.Printf("VACUOUS: %s: none of the %d sampled return paths is satisfiable together with the assumptions made along it\n", g.Name, len(g.Obs))
+				}
+				continue
+			}
 			for _, ob := range g.Obs {
 				if ob.Status == "vacuous" {
 					vacuous++
